@@ -19,10 +19,11 @@ from typing import Any, Optional
 
 import z3
 
-V = z3.DeclareSort("V")
+from . import seqs as Q
+from .seqs import V
 K = z3.DeclareSort("K")
 O = z3.DeclareSort("O")
-SeqV = z3.SeqSort(V)
+SeqV = Q.Sq
 IntS = z3.IntSort()
 BoolS = z3.BoolSort()
 
